@@ -274,7 +274,19 @@ def rule_segments(ctx):
     E.ipport_pairing(ctx, ctx.program, "R4", ("huginn_net_http",))
 
 
+def rule_shared(ctx):
+    """whether a message is reported must not depend on which segment carries body bytes (C05.R1 head cut at the earliest blank line),
+    nor - in parallel mode - on the direction of a packet (C18.R2 symmetric dispatch) or on batching (FIFO)"""
+    from ..engine import report as R
+    from . import C05, C18
+    from . import _workers as W
+    C05.rule_R1(R.Retag(ctx, "C05."))
+    C18.rule_R2(R.Retag(ctx, "C18."))
+    W.fifo_batch(ctx, ctx.program, "huginn_net_http", "http", "W.R3")
+
+
 def run(ctx):
+    rule_shared(ctx)
     rule_completeness(ctx)
     rule_segments(ctx)
     rule_flow_keys(ctx)
